@@ -273,7 +273,10 @@ def execute(ctx, case, circ, model, backend, det, bits, psi0, factory, rnd_fallb
     queues = {k: list(v) for k, v in flat.items()}
     for i, (sp, _) in enumerate(recorded):
         for (t, r) in gq.qregs(sp):
-            q = queues[(t, r)]
+            q = queues.get((t, r))
+            if q is None:
+                ctx.violate("O_order", i, f"{backend}: executed {sp} on register {t}{r}, which the circuit does not have", sig)
+                return False, 0, []
             if not q:
                 ctx.violate("O_order", i, f"{backend}: op {sp} executed but wire {t}{r} has no operation left", sig)
                 return False, 0, []
